@@ -471,8 +471,11 @@ def _bfs_job(args):
 
 
 def run(ctx):
+    import time as _t
+    t0 = _t.time()
     thorough = ctx.tier == "thorough"
     F.coder("cam"), F.coder("vam")       # compile once, before any fork
+    t_compile = _t.time() - t0
     cam_parts, vam_parts = _parts(thorough, ctx.seed)
     states = trans = xchecks = pruned = 0
     digests, samples, caps = [], [], []
@@ -496,14 +499,18 @@ def run(ctx):
                 for pre in X._prefixes(model, split):
                     jobs.append((which, label, margs, pre, depth))
     random.Random(ctx.seed).shuffle(jobs)
+    t_prep = _t.time() - t0 - t_compile
     pool = mp.Pool(16)
     try:
         for label, r in pool.imap_unordered(_bfs_job, jobs):
             results[label].merge(r)
+        t_bfs = _t.time() - t0 - t_compile - t_prep
         gn, pn = _gdt_lattices(ctx, pool, thorough)
     finally:
         pool.close()
         pool.join()
+    ctx.parts["wall_breakdown_s"] = dict(compile_coders=round(t_compile, 1), head_and_prefixes=round(t_prep, 1), bfs_pool=round(t_bfs, 1),
+                                         gdt_lattices=round(_t.time() - t0 - t_compile - t_prep - t_bfs, 1), jobs=len(jobs))
     trans += pn
     if True:
         for label, r in results.items():
